@@ -287,6 +287,23 @@ def stripDim (pred : String → Bool) : Dim → Dim
 
 def stripTy (pred : String → Bool) (t : Ty) : Ty := ⟨t.e, t.s.map (·.map (stripDim pred))⟩
 
+/-- `Natural.__le__` / `Shape.__le__` / `Tensor._subtype` as used by `_Inline.infer_output_types` to
+    accept an argument of type `arg` for a declared (symbol-stripped) input type `decl`: same element
+    type, and an unknown rank or dimension on either side matches anything. -/
+def compatDim : Dim → Dim → Bool
+  | .const n, .const m => n == m
+  | _, _ => true
+
+def compatDims : List Dim → List Dim → Bool
+  | [], [] => true
+  | a :: as, d :: ds => compatDim a d && compatDims as ds
+  | _, _ => false
+
+def inlineArgAccepted (arg decl : Ty) : Bool :=
+  arg.e == decl.e && (match arg.s, decl.s with
+    | some as, some ds => compatDims as ds
+    | _, _ => true)
+
 /-- `_Inline.infer_output_types`: the model's declared outputs (already stripped of every symbol by
     `inline`). -/
 def inlineTypes (declared : List Ty) : List ITy := declared.map (fun t => some (stripTy (fun _ => true) t))
